@@ -216,9 +216,14 @@ class Crc32Monitor(Monitor):
         except Exception:
             COL.count('tostring_failed_not_judged_here')
             return
-        want = '%x' % (zlib.crc32(text.encode(enc)) & 0xffffffff)
-        if result != want:
-            COL.violation('crc32', 'crc32:differs-from-zlib-over-table-text', want, result)
+        want = zlib.crc32(text.encode(enc)) & 0xffffffff
+        try:
+            got = int(result, 16)
+        except (TypeError, ValueError):
+            COL.violation('crc32', 'crc32:not-a-hex-string', '%x' % want, repr(result))
+            return
+        if got != want:
+            COL.violation('crc32', 'crc32:differs-from-zlib-over-table-text', '%x' % want, result)
 
 
 def setup(concepts, spec):
